@@ -129,6 +129,10 @@ cdef class APIConnection:
 
     cdef void _cleanup(self)
 
+    cdef void _release_resources(self)
+
+    cpdef void _raise_if_closed(self) except *
+
     cpdef set_log_name(self, str name)
 
     cdef _make_connect_request(self)
